@@ -43,6 +43,8 @@ fn both(args: &[String]) {
             Ok(Ok(x)) => x,
             _ => continue,
         };
+        // the rules the back-ends actually run (C08 reasons about the attempts of THAT run)
+        let gopt = if reports { opt_rules_json(&opt) } else { serde_json::Value::Null };
         let vm = pest_vm::Vm::new(opt);
         pest::set_call_limit(std::num::NonZeroUsize::new(20000));
         pest::set_error_detail(detail);
@@ -81,7 +83,7 @@ fn both(args: &[String]) {
             }
             cs.push(o);
         }
-        wl(&mut w, &json!({"id": gi, "text": text, "g": rules_json(&ast), "uni": uni, "extras": EXTRAS, "op": false,
+        wl(&mut w, &json!({"id": gi, "text": text, "g": rules_json(&ast), "gopt": gopt, "uni": uni, "extras": EXTRAS, "op": false,
                            "semantics": rec.get("semantics").and_then(|b| b.as_bool()).unwrap_or(false), "cases": cs}));
     }
     w.flush().unwrap();
